@@ -83,6 +83,8 @@ def gen_ops(rng, case, be):
                 cands += ["matmul", "matmul"]
         if cur in ("numpy", "torch") and st.F > 0:
             cands += ["flatten"]
+        if cur == "numpy":
+            cands += ["rejoin"]
         if cur == "numpy" and st.header_ok:
             cands += ["flip", "flip", "bbox", "focus", "write_read", "get_components", "remove_components", "normalize", "normalize", "normalize_distribution", "normalize_unnormalize", "augment2d", "to_torch", "to_tf_last"]
             if st.F >= 2 and st.frames_known:
@@ -151,6 +153,8 @@ def gen_ops(rng, case, be):
             ops.append({"k": k}); break                                   # leaves a plain tensor in the body: nothing else is defined on it
         else:
             ops.append({"k": k})
+    if be in ("numpy", "numpy_with_tf") and rng.random() < 0.12:
+        ops = [{"k": "rejoin"}, {"k": "zero_filled"}] + ops            # planned opening: a body whose array did not come out of the constructor, zero-filled at once
     return ops
 
 
@@ -197,7 +201,7 @@ def model_body(case):
     return {"fps": f64([b["fps"]["f32"]])[0], "shape": [b["frames"], b["people"], b["points"], b["dims"]], "data": f64(b["data"]), "conf": f64(b["conf"])}
 
 
-MODELLED = {"select_frames", "slice_step", "get_points", "zero_filled", "copy", "matmul", "flip", "bbox", "focus", "interpolate", "normalize", "normalize_distribution", "normalize_unnormalize"}
+MODELLED = {"select_frames", "slice_step", "get_points", "zero_filled", "copy", "rejoin", "matmul", "flip", "bbox", "focus", "interpolate", "normalize", "normalize_distribution", "normalize_unnormalize"}
 
 
 def to_model_ops(case, ops):
@@ -209,6 +213,8 @@ def to_model_ops(case, ops):
         k = op["k"]
         if k not in MODELLED:
             break
+        if k == "rejoin":
+            out.append({"k": "copy"}); continue                    # the same body, assembled another way
         if k == "interpolate":
             if op["kind"] != "linear": break
             nf = round(F * op["new_fps"] / fps)
@@ -259,6 +265,7 @@ def run(ctx):
         case["fills"] = [k1, k2]
         case["ops"] = gen_ops(rng, case, be)
         case["backend"] = be
+        case["masked_input"] = rng.choice([None, None, None, "none", "partial"])        # the constructor is handed a MaskedArray with no / a partial mask of its own
         plan["tf" if be in ("tf", "numpy_with_tf") else be].append(case)
     plan["numpy"].insert(0, k4_witness())
     results = []
@@ -281,7 +288,8 @@ def run(ctx):
             ctx.count("op:" + op["k"])
         if len(ctx.samples) < 3:
             ctx.sample({"backend": be, "fills": c["fills"], "ops": [o["k"] for o in c["ops"]], "shape": [c["body"][k] for k in ("frames", "people", "points", "dims")], "missing_points": nmiss})
-        info = {"case": {k: c[k] for k in ("header", "body", "fill1", "fill2", "ops", "backend")}}
+        info = {"case": {k: c.get(k) for k in ("header", "body", "fill1", "fill2", "ops", "backend", "masked_input")}}
+        ctx.count("constructor_input:" + str(c.get("masked_input") or "plain"))
         for i, stp in enumerate(res["run1"]):
             if "error" in stp:
                 ctx.count("raises:%s:%s:%s" % (be, c["ops"][i - 1]["k"] if i else "construct", stp["error"].split(":")[0]))
